@@ -590,6 +590,11 @@ pub fn run_case(f: TapeFn, tape: &[u32], want_desc: bool, tier: Tier) -> CaseRep
     if dec.far {
         cx.counters.push(("far_placed_cases", 1));
     }
+    // a decoder that runs past the end of the tape gets zeros (the low end of every range): harmless for
+    // a case now and then, a blind spot if it happens systematically; reported so that it is noticed
+    if dec.pos > tape.len() {
+        cx.counters.push(("tape_exhausted_cases", 1));
+    }
     CaseReport {
         fp: dec.fingerprint(),
         class: cx.class,
@@ -689,7 +694,8 @@ pub fn drive_tape(
                         *stats.classes.entry(format!("{}/{}", sub.name, rep.class)).or_default() +=
                             1;
                         for (k, v) in rep.counters {
-                            *stats.counters.entry(k.to_string()).or_default() += v;
+                            let key = if k == "tape_exhausted_cases" { format!("{}/{}", k, sub.name) } else { k.to_string() };
+                            *stats.counters.entry(key).or_default() += v;
                         }
                         if rep.nontrivial {
                             stats.nontrivial_total += 1;
